@@ -41,19 +41,32 @@ KNOWN_PANICS = [
     ("brace_sequence_step_underflow", r"brush-core/src/braceexpansion\.rs$", r"subtract with overflow", BRACE_SEQ_FEATURE),
     ("history_count_exceeds_items", r"brush-builtins/src/history\.rs$", r"subtract with overflow", r"history\s+\d"),
     ("heredoc_in_nested_construct_unwrap", r"brush-parser/src/tokenizer\.rs$", r"Option::unwrap", HEREDOC_FEATURE),
+    ("strftime_invalid_format_panics", r"std:alloc/src/string\.rs$|alloc/src/string\.rs$", r"Display implementation returned an error", r"\\D\{|HISTTIMEFORMAT|%\("),
     ("backquote_escape_span_boundary", r"brush-interactive/src/highlighting\.rs$", r"char boundary", r"`[^`]*\\"),
 ]
 HANG_EMPTY_TAG = re.compile(r"<<-?(''|\"\")?[ \t]+\Z")
 HANG_CHAR_INC = re.compile(r"\{[A-Za-z]\.\.[A-Za-z]\.\.[-+]?(\d{10,})\}")
 
 
-def known_hang_clause(text):
+# five or more directly nested openers: brush's PEG grammars backtrack exponentially on them
+NEST_OPENERS = re.compile(r"(?:(?:\w+\[|\"?\$\(\(?|\$\{\w*[-:/#%]*|\{\w?,?\s*|\(\(?|`|\w+\(\)\s*\{\s*|@\(|<\(|\$')\s*){5,}")
+EXP_STAGES = ("text:brace", "token:brace", "text:word", "token:word", "token:arithmetic", "text:arithmetic", "token:parameter",
+              "token:heredoc", "text:pattern", "token:pattern", "text:prompt")
+
+
+def known_hang_clause(text, stage=None):
+    if NEST_OPENERS.search(text) and (stage is None or stage in EXP_STAGES):
+        return "nested_construct_exponential_backtracking"
     if HANG_EMPTY_TAG.search(text):
         return "heredoc_empty_tag_at_eof_hang"
     for m in HANG_CHAR_INC.finditer(text):
         if int(m.group(1)) % (2 ** 32) == 0:
             return "brace_char_increment_wraps_to_zero"
     return None
+
+
+def cheap_hang(text):
+    return bool(HANG_EMPTY_TAG.search(text)) or known_hang_clause(text) == "brace_char_increment_wraps_to_zero"
 
 
 def panic_clause(loc, msg, text):
@@ -80,7 +93,7 @@ def run_harness(lines, timeout=900):
             break
         # process ended before answering everything: `got` holds the answers so far, the last of which is
         # `HANG` when the watchdog fired; otherwise the case after them killed the process
-        if got and got[-1] == "HANG":
+        if got and got[-1].startswith("HANG"):
             out.extend(got)
             rest = rest[len(got):]
         else:
@@ -482,14 +495,14 @@ def explore_inproc(ctx):
     for k in (1, 2, 3):
         for t in itertools.product(alpha, repeat=k):
             s = "".join(t)
-            if known_hang_clause(s) or known_hang_clause("$(" + s):
+            if cheap_hang(s) or cheap_hang("$(" + s):
                 ctx.bucket("skipped_known_hang_feature")
                 continue
             texts.append(("exh%d" % k, "PARSE", s))
     for k in (1, 2):
         for t in itertools.product(alpha, repeat=k):
             s = "".join(t)
-            if known_hang_clause(s):
+            if cheap_hang(s):
                 continue
             texts.append(("exh%d" % k, "HL", s))
             texts.append(("exh%d" % k, "COMPL", s))
@@ -530,7 +543,7 @@ def explore_inproc(ctx):
     # known hang inputs cost a watchdog period each: at most a couple per run
     kept, hangs = [], 0
     for b, op, t in texts:
-        if op in ("PARSE", "HL", "COMPL") and known_hang_clause(t):
+        if op in ("PARSE", "HL", "COMPL") and cheap_hang(t):
             hangs += 1
             if hangs > 2 and b != "corpus":
                 ctx.bucket("skipped_known_hang_feature")
@@ -560,12 +573,12 @@ def explore_inproc(ctx):
                 nviol += 1
                 ctx.violation("%s panics at %s (%s)" % (op, loc, msg[:80]), case)
         elif k == "HANG":
-            cl = known_hang_clause(t)
+            cl = known_hang_clause(t, o[5:].strip() if op == "PARSE" else None)
             if cl:
                 ctx.known_or_violation(cl, "%s never returns" % op, case)
             elif nviol < 25:
                 nviol += 1
-                ctx.violation("%s never returns (watchdog %d ms)" % (op, WATCHDOG_MS), case)
+                ctx.violation("%s never returns (watchdog %d ms) %s" % (op, WATCHDOG_MS, o), case)
         elif k == "DIED":
             if nviol < 25:
                 nviol += 1
